@@ -270,6 +270,62 @@ tbody, _ = function_body(pkt, "vbi_decode_teletext")
 t1 = re.sub(r"\s+", " ", tbody)
 reload_ok = re.search(r"memcpy ?\(&cvtp->data, &vtp->data, cache_page_size ?\(vtp\) - sizeof ?\(\*vtp\) \+ sizeof ?\(vtp->data\)\);", t1) is not None
 
+# --- vbi_decode_teletext case 26: the X/26 sequence test and the stores into enh_lop.enh[] -----------------
+cm = re.search(r"case 26: \{(.*?)\} case 27:", t1)
+if not cm:
+    die("vbi_decode_teletext: case 26 not found")
+c26 = cm.group(1)
+st = re.search(r"if \(rvtp->num_triplets >= (\d+) \* (\d+) \|\| rvtp->num_triplets (!=|>=|<=|>|<|==) designation \* (\d+)\) \{ "
+               r"rvtp->num_triplets = (-?\d+); return FALSE; \}(.*?)for \(p\+\+, i = 0; i < (\d+); p \+= 3, i\+\+\) \{(.*?)\} "
+               r"cvtp->x26_designations \|= 1 << designation;", c26)
+if not st:
+    die("vbi_decode_teletext: X/26 sequence test / store loop not recognised")
+x26_limit = int(st.group(1)) * int(st.group(2))
+x26_op, x26_stride, x26_sentinel, between, x26_per_packet, loop_body = st.group(3), int(st.group(4)), int(st.group(5)), st.group(6).strip(), int(st.group(7)), st.group(8)
+gap = re.fullmatch(r"while \(rvtp->num_triplets < designation \* (\d+)\) \{ memset ?\(&cvtp->data\.enh_lop\.enh\[rvtp->num_triplets\+\+\], "
+                   r"[^;]*\); \}", between)
+if between and not gap:
+    die("vbi_decode_teletext: unrecognised code between the X/26 sequence test and the store loop: " + between[:160])
+x26_gap_fill = bool(gap)
+if gap and int(gap.group(1)) != x26_stride:
+    die("vbi_decode_teletext: gap fill stride differs from the sequence test")
+if not re.search(r"if \(t < 0\) break;.*cvtp->data\.enh_lop\.enh\[rvtp->num_triplets\+\+\] = triplet;", loop_body):
+    die("vbi_decode_teletext: X/26 store statement not recognised")
+dg = re.search(r"if \(\(designation = vbi_unham8 ?\(\*p\)\) < 0\) return FALSE; if \(rvtp->num_triplets >=", c26)
+if not dg:
+    die("vbi_decode_teletext: X/26 designation decode not recognised")
+# every other assignment to num_triplets in the library: only the reset at a page header
+nt_sites = re.findall(r"num_triplets\s*(=[^=][^;]*|\+\+|--|[-+*/]=[^;]*);", pkt)
+nt_sites = [re.sub(r"\s+", " ", x).strip() for x in nt_sites]
+expected_sites = sorted(["= 0", "= %d" % x26_sentinel, "++ = triplet"] if False else [])
+nt_assign = sorted(set(re.sub(r"\s+", " ", m.group(0)) for m in re.finditer(r"num_triplets\s*=[^=][^;]*;", pkt)))
+if nt_assign != sorted(["num_triplets = 0;", "num_triplets = %d;" % x26_sentinel]):
+    die("packet.c: unexpected assignments to num_triplets: %r" % nt_assign)
+hdr_reset = re.search(r"rvtp->lop_packets = 0; rvtp->num_triplets = 0; return TRUE; \} case 1 \.\.\. 25:", t1) is not None
+
+# --- teletext.c top_index: the line counter of one index sub-page ------------------------------------------
+ibody, _ = function_body(tel, "top_index")
+i1 = re.sub(r"\s+", " ", ibody)
+decl = [d for d in re.findall(r"((?:unsigned |signed |long |short )*(?:int|unsigned|long|short|char|size_t)\b[^;(){}]*;)", i1) if re.search(r"\blines\b", d)]
+if len(decl) != 1:
+    die("top_index: declaration of `lines` not found")
+lines_signed = not re.match(r"(unsigned|size_t)", decl[0].strip())
+li = re.search(r"acp = &pg->text\[(\d+) \* EXT_COLUMNS\]; lines = (\d+);", i1)
+lp = re.search(r"if \(subno > 0\) \{ if \(lines-- == 0\) \{ subno--; lines = (\d+); \} cache_page_unref ?\(vtp\); vtp = NULL; continue; \} "
+               r"else if \(lines-- <= 0\) \{ cache_page_unref ?\(vtp\); vtp = NULL; continue; \}", i1)
+adv = len(re.findall(r"acp \+= EXT_COLUMNS;", i1))
+wl = re.search(r"while \(\(ait = next_ait ?\(vbi, xpgno, xsubno, &vtp\)\)\) \{", i1)
+if not (li and lp and adv == 1 and wl):
+    die("top_index: title loop not recognised")
+if int(lp.group(1)) != int(li.group(2)):
+    die("top_index: the two initial values of `lines` differ")
+jm = re.search(r"for \(j = 0; j < (\d+); j\+\+\) \{ n = .*?acp\[j \+ (\d+)\]\.unicode = n;", i1)
+cols = ([int(jm.group(2)) + int(jm.group(1)) - 1] if jm else []) + [int(x) for x in re.findall(r"k <= (\d+); k\+\+\) acp\[k\]", i1)]
+rows_def = re.search(r"#define\s+ROWS\s+(\d+)", tel)
+ext_def = re.search(r"#define\s+EXT_COLUMNS\s+(\d+)", tel)
+if not (rows_def and ext_def and cols):
+    die("teletext.c: ROWS / EXT_COLUMNS / index cell columns not found")
+
 # --- cache_page_size -------------------------------------------------------------------------------
 sbody, sfull = function_body(cac, "cache_page_size")
 s1 = re.sub(r"\s+", " ", sbody)
@@ -328,6 +384,7 @@ probe = ['#include <stdio.h>', '#include <stddef.h>', '#include <string.h>', '#i
          ' printf("drcsLopSize %zu\\n", sizeof(pg.data.drcs.lop));',
          ' printf("extOff %zu\\n", offsetof(cache_page, data.ext_lop.ext) - offsetof(cache_page, data));',
          ' printf("extSize %zu\\n", sizeof(pg.data.ext_lop.ext));',
+         ' printf("pageTextLen %zu\\n", sizeof(((vbi_page *) 0)->text) / sizeof(((vbi_page *) 0)->text[0]));',
          ' printf("drcsLopOff %zu\\n", offsetof(cache_page, data.drcs.lop) - offsetof(cache_page, data));',
          ' printf("popPointerLen %zu\\n", sizeof(pg.data.pop.pointer) / sizeof(pg.data.pop.pointer[0]));',
          ' printf("popTripletLen %zu\\n", sizeof(pg.data.pop.triplet) / sizeof(pg.data.pop.triplet[0]));',
@@ -486,6 +543,30 @@ L += ["]", "",
       "/-- local object: `if (!(vtp->x26_designations & %s)) return FALSE;` before `vtp->data.enh_lop.enh + ...` -/" % lo.group(1),
       "def localObjEnhMask : Nat := %d" % int(lo.group(1), 0),
       "def extOff : Nat := %d" % vals["extOff"], "def extSize : Nat := %d" % vals["extSize"],
+      "",
+      "/-! ## packet.c vbi_decode_teletext, case 26: X/26 sequence test, stores into `enh_lop.enh[]` -/",
+      "/-- `if (rvtp->num_triplets >= %d || rvtp->num_triplets %s designation * %d) { rvtp->num_triplets = %d; return FALSE; }` -/"
+      % (x26_limit, x26_op, x26_stride, x26_sentinel),
+      "def x26Rejects (nt d : Int) : Bool := decide (nt ≥ %d ∨ %s)" % (x26_limit, {"!=": "nt ≠ d * %d", ">": "nt > d * %d", ">=": "nt ≥ d * %d", "<": "nt < d * %d", "<=": "nt ≤ d * %d", "==": "nt = d * %d"}[x26_op] % x26_stride),
+      "def x26Sentinel : Int := %d" % x26_sentinel,
+      "def x26Stride : Nat := %d" % x26_stride,
+      "/-- triplets of one packet, stored with `enh[rvtp->num_triplets++] = triplet` until the first uncorrectable one -/",
+      "def x26PerPacket : Nat := %d" % x26_per_packet,
+      "/-- is there a loop `while (num_triplets < designation * %d) memset (&enh[num_triplets++], ...)` between the test and the stores? -/" % x26_stride,
+      "def x26GapFill : Bool := %s" % B(x26_gap_fill),
+      "/-- the only other assignment in packet.c: `rvtp->num_triplets = 0` at the end of every accepted page header -/",
+      "def x26HeaderResets : Bool := %s" % B(hdr_reset),
+      "",
+      "/-! ## teletext.c top_index(): line counter of a TOP index sub-page -/",
+      "/-- declaration: `%s` -/" % decl[0].strip(),
+      "def linesSigned : Bool := %s" % B(lines_signed),
+      "/-- `acp = &pg->text[%s * EXT_COLUMNS]; lines = %s;` and `lines = %s` again when a sub-page has been skipped -/" % (li.group(1), li.group(2), lp.group(1)),
+      "def indexFirstRow : Nat := %s" % li.group(1),
+      "def linesInit : Int := %s" % li.group(2),
+      "/-- ROWS, EXT_COLUMNS of teletext.c; elements of vbi_page.text[]; right-most cell column the title row writes -/",
+      "def pageRows : Nat := %s" % rows_def.group(1), "def extColumns : Nat := %s" % ext_def.group(1),
+      "def pageTextLen : Nat := %d" % vals["pageTextLen"],
+      "def indexMaxColumn : Nat := %d" % max(cols),
       "", "end Zvbi.Gen.C01", ""]
 text = "\n".join(L)
 old = open(OUT).read() if os.path.exists(OUT) else None
